@@ -1,5 +1,6 @@
 import JwtModel.Wire
 import JwtModel.Scope
+import JwtModel.HashId
 import JwtModel.Drive.Encode
 /-! Driver handlers for C14: `scopedsigner`, `issueuser`, `emptyperms`. -/
 namespace Jwt.Drive
@@ -36,6 +37,17 @@ def handleScope (fields : List String) : Option String :=
           | .error .unsupported => some "unsupported"
           | .ok (v2, hText, pText) => some s!"ok {hexStr hText} {hexStr pText} {dumpStr v2}"
     | _, _, _, _, _, _ => some "bad-op"
+  | ["hashid", i, su, g] =>
+    match unhexStr i, unhexStr su, unhexStr g with
+    | some i, some su, some g =>
+      match hashId (fun base => base) i su g with
+      | some base => some ("ok " ++ hexStr base)
+      | none => some "err"
+    | _, _, _ => some "unsupported"
+  | ["cleansubject", g] =>
+    match unhexStr g with
+    | some g => some (hexStr (cleanSubject g))
+    | none => some "unsupported"
   | _ => none
 
 end Jwt.Drive
